@@ -731,6 +731,25 @@ async def settle(rig, pump=True, budget=20000):
             return
 
 
+async def send_while_workers_busy(rig, conn, msg, delay):
+    """feed `msg`; every job it hands to the worker-thread pool (validation) waits while `delay` seconds of loop time
+    pass, then runs; returns the frames the connection received meanwhile (raw strings)"""
+    loop = asyncio.get_running_loop()
+    vexec = loop.inline_executor
+    vexec.park = True
+    n0 = len(conn.out)
+    conn.feed(msg)
+    for _ in range(8):
+        await asyncio.sleep(0)
+    loop._voffset += delay
+    for _ in range(8):
+        await asyncio.sleep(0)
+    vexec.park = False
+    vexec.release_all()
+    await settle(rig)
+    return conn.out[n0:]
+
+
 def sqlite_dump(path):
     """Open a SQLite file with the stdlib module and dump events and tags."""
     con = sqlite3.connect(path)
